@@ -5,6 +5,7 @@ import (
 	"fmt"
 	"github.com/hashicorp/go-multierror"
 	"reflect"
+	"runtime/debug"
 	"strings"
 
 	"github.com/hashicorp/go-argmapper"
@@ -106,33 +107,35 @@ type OpResult struct {
 
 // Runtime is an instantiated world.
 type Runtime struct {
-	W             *World
-	Sim           *simrt.Sim
-	St            *core.Stats
-	Parties       []Party // world parties + parties derived by generators
-	Tokens        []Token
-	Log           []ExecRec
-	Online        []Online
-	Results       []*OpResult
-	execs         []int
-	nerr          int
-	funcs         []*argmapper.Func
-	raw           []interface{}
-	args          []argmapper.Arg
-	ArgTok        []uint64 // token minted for each named/typed ArgSpec (0 otherwise)
-	curOp         [8]int   // per thread: operation being executed (-1 none)
-	FaultsFired   map[string]int
-	GenCalls      int
-	derived       map[string]int
-	derivedOf     []int
-	defaultSlices [][]argmapper.Arg
-	opSlices      [][]argmapper.Arg
-	echo          reflect.Value
-	typedNil      bool
-	anyErr        error
-	FilterCalls   int
-	NilStructOps  map[int][]int // op -> parties that returned a nil struct during it
-	InstErr       error
+	W              *World
+	Sim            *simrt.Sim
+	St             *core.Stats
+	Parties        []Party // world parties + parties derived by generators
+	Tokens         []Token
+	Log            []ExecRec
+	Online         []Online
+	Results        []*OpResult
+	execs          []int
+	nerr           int
+	funcs          []*argmapper.Func
+	raw            []interface{}
+	args           []argmapper.Arg
+	ArgTok         []uint64 // token minted for each named/typed ArgSpec (0 otherwise)
+	curOp          [8]int   // per thread: operation being executed (-1 none)
+	FaultsFired    map[string]int
+	GenCalls       int
+	derived        map[string]int
+	derivedOf      []int
+	defaultSlices  [][]argmapper.Arg
+	opSlices       [][]argmapper.Arg
+	echo           reflect.Value
+	typedNil       bool
+	anyErr         error
+	InstPanic      string // a constructor panicked during instantiation
+	InstPanicStack string
+	FilterCalls    int
+	NilStructOps   map[int][]int // op -> parties that returned a nil struct during it
+	InstErr        error
 }
 
 var errType = reflect.TypeOf((*error)(nil)).Elem()
@@ -177,6 +180,14 @@ func structTypeOf(slots []Slot) reflect.Type {
 		}
 		if s.Sub != "" {
 			opts = append(opts, "subtype="+s.Sub)
+		}
+		// tag oddities the parser documents nothing about and has always ignored: an
+		// unknown option without a value, a trailing comma
+		switch {
+		case s.Spell%7 == 5:
+			opts = append(opts, "omitempty")
+		case s.Spell%7 == 6 && (tagName != "" || len(opts) > 0):
+			opts = append(opts, "")
 		}
 		if tagName != "" || len(opts) > 0 {
 			f.Tag = reflect.StructTag(fmt.Sprintf(`argmapper:"%s"`, strings.Join(append([]string{tagName}, opts...), ",")))
@@ -490,7 +501,23 @@ func (rt *Runtime) makeGen(ai int, g *Gen) argmapper.ConverterGenFunc {
 }
 
 // buildParty creates the Go function and the *argmapper.Func of party pi.
-func (rt *Runtime) buildParty(pi int) error {
+// buildParty constructs party pi. A constructor that panics is reported as
+// InstPanic (with the stack of the panic), never as an error.
+func (rt *Runtime) buildParty(pi int) (err error) {
+	defer func() {
+		if r := recover(); r != nil {
+			if d, ok := r.(*simrt.Diverged); ok {
+				panic(d)
+			}
+			rt.InstPanic = fmt.Sprint(r)
+			rt.InstPanicStack = string(debug.Stack())
+			err = fmt.Errorf("party %d (%s): constructor panicked: %v", pi, rt.Parties[pi], r)
+		}
+	}()
+	return rt.buildParty1(pi)
+}
+
+func (rt *Runtime) buildParty1(pi int) error {
 	p := rt.Parties[pi]
 	opts := make([]argmapper.Arg, 0, len(p.Defaults)+5) // spare capacity, as append leaves it
 	for _, d := range p.Defaults {
